@@ -262,6 +262,37 @@ static void quantity_entry(Reporter& R, const char* name, uint64_t qindex) {
               return;
             }
           }
+          // the array and component-wise spellings of the constructor must store what the shape spelling stores
+          if constexpr (N > 1) {
+            auto same_as_shape = [&](const Q& other, const char* how) {
+              const auto so = to_si(other);
+              R.eval();
+              for (size_t i = 0; i < N; ++i) {
+                if (!agree(so[i], stored[i], nid)) {
+                  R.violation(base + "|construct(" + how + ")|unit=" + pu.second, J().i("component", i).num("given", a[i])
+                                                                                       .num("stored", so[i]).num("shape_constructor_stores", stored[i]).str());
+                  return false;
+                }
+              }
+              R.count(std::string("constructor_spellings_") + how);
+              return true;
+            };
+            if constexpr (std::is_constructible_v<Q, const std::array<T, N>&, U>) {
+              if (!same_as_shape(Q(a, u), "array")) return;
+            }
+            if constexpr (N == 2 && std::is_constructible_v<Q, T, T, U>) {
+              if (!same_as_shape(Q(a[0], a[1], u), "components")) return;
+            }
+            if constexpr (N == 3 && std::is_constructible_v<Q, T, T, T, U>) {
+              if (!same_as_shape(Q(a[0], a[1], a[2], u), "components")) return;
+            }
+            if constexpr (N == 6 && std::is_constructible_v<Q, T, T, T, T, T, T, U>) {
+              if (!same_as_shape(Q(a[0], a[1], a[2], a[3], a[4], a[5], u), "components")) return;
+            }
+            if constexpr (N == 9 && std::is_constructible_v<Q, T, T, T, T, T, T, T, T, T, U>) {
+              if (!same_as_shape(Q(a[0], a[1], a[2], a[3], a[4], a[5], a[6], a[7], a[8], u), "components")) return;
+            }
+          }
           // read back in the same unit: the original number up to rounding (two table steps)
           const auto back = to_arr(q.Value(u));
           for (size_t i = 0; i < N; ++i) {
